@@ -129,15 +129,23 @@ func evalExecBlock(vm *r.VM, execBlock *syntax.ExecBlock, params []r.Element) (r
 	// 结束循环 / 继续循环 that no loop of this body has consumed: it must not
 	// travel on to a loop of the caller - it fails here, with the message the
 	// same statement gives at the top level of a program
-	if sig, ok := stmtBlockErr.(*zerr.Signal); ok && (sig.SigType == zerr.SigTypeBreak || sig.SigType == zerr.SigTypeContinue) {
-		stmtBlockErr = zerr.NewErrorSLOT(sig.Error())
-	}
+	stmtBlockErr = failOnLoopSignal(stmtBlockErr)
 
 	if stmtBlockErr != nil {
-		return handleExceptionSignal(vm, blockModule, blockFrameDepth, execBlock.CatchBlock, stmtBlockErr)
+		// ... and the same holds for the statements of a 拦截 block of this body
+		handled, handlerErr := handleExceptionSignal(vm, blockModule, blockFrameDepth, execBlock.CatchBlock, stmtBlockErr)
+		return handled, failOnLoopSignal(handlerErr)
 	}
 
 	return rtnValue, stmtBlockErr
+}
+
+// failOnLoopSignal turns a 结束循环 / 继续循环 signal into an ordinary failure
+func failOnLoopSignal(err error) error {
+	if sig, ok := err.(*zerr.Signal); ok && (sig.SigType == zerr.SigTypeBreak || sig.SigType == zerr.SigTypeContinue) {
+		return zerr.NewErrorSLOT(sig.Error())
+	}
+	return err
 }
 
 func evalStmtBlock(vm *r.VM, stmtBlock *syntax.StmtBlock) (r.Element, error) {
